@@ -241,6 +241,8 @@ Definition rw_add (l' r' : expr) (c2 : nat) : expr * nat :=
     (the configuration; [csi_get] and [allows_literal_callers] of the model). *)
 Variable instr : string -> bool.
 Variable lit_ok : string -> bool.
+(** ... and which names are instrumented as BARE calls [f(a)] (methods "allowed without callee"). *)
+Variable awc : string -> bool.
 
 (** [replace_with_member]: the receiver is captured (a literal stays), the function is read from it into a
     temporary, the argument is captured unless it is a literal or a sum left in place (which is not passed
@@ -296,13 +298,27 @@ Definition rw_tpl2 (q0 : string) (e1' : expr) (q1 : string) (e2' : expr) (q2 : s
   (wrap (b1 ++ b2) (Hook (Tpl2 q0 x1 q1 x2 q2)
      ((match arg_act e1' with Stay => [] | _ => [x1] end) ++ (match arg_act e2' with Stay => [] | _ => [x2] end))), c4).
 
+(** [replace_call_expr_if_csi_method_without_callee]: the argument is captured (Replace mode: identifiers too) unless it is a
+    literal or a sum left in place; the callee IDENTIFIER stays where it is and is handed to the hook, with [undefined] for
+    the receiver.  (It is therefore read after the argument has been evaluated: C01_bare_call_refuted.) *)
+Definition rw_bare (name : string) (a' : expr) (c2 : nat) : expr * nat :=
+  let '(a2, ba, c3) := match arg_act a' with Hoist => (Tmp c2, [(c2, a')], S c2) | _ => (a', [], c2) end in
+  (wrap ba (Hook (CallE (Var name) a2)
+                 ([Var name; Var "undefined"] ++ match arg_act a' with Stay => [] | _ => [a2] end)), c3).
+
 Fixpoint rw (e : expr) (c : nat) : expr * nat :=
   match e with
   | Add l r =>
       let '(l', c1) := rw l c in
       let '(r', c2) := rw r c1 in
       rw_add l' r' c2
-  | CallE f a => let '(f', c1) := rw f c in let '(a', c2) := rw a c1 in (CallE f' a', c2)
+  | CallE f a =>
+      let '(f', c1) := rw f c in
+      let '(a', c2) := rw a c1 in
+      match f' with
+      | Var name => if awc name then rw_bare name a' c2 else (CallE f' a', c2)
+      | _ => (CallE f' a', c2)
+      end
   | Par x => let '(x', c1) := rw x c in (Par x', c1)
   | AddAsgV x e1 => let '(e', c1) := rw e1 c in rw_addasg_v x e' c1
   | AddAsgM o k e1 =>
